@@ -392,6 +392,7 @@ package goat
 //@   nopanic[C19.nopanic]
 //@   makechan 0 tag strId(id) nc
 //@   makechan 1 tag strId(id)
+//@   ensures[C19.http_new_connection_starts_active] result.1 ==> ncalls("(*sync/atomic.Int64).Store") == old(ncalls("(*sync/atomic.Int64).Store")) + 1
 //@   ensures[C19.http_one_conn_per_source] result.0 != nil && result.0.readCh != nil && id in goh.conns.value && goh.conns.value[id] == result.0 && result.1 == !atlock(id in goh.conns.value)
 
 //@ func goat.(*GoatOverHttp).unregisterLocked
